@@ -79,7 +79,7 @@ def comparisons(ctx, fid):
 
 
 STEP = dict(mir.TRANSPARENT)
-STEP.update({"std::ops::Sub::sub": 0, "core::num::<impl u64>::saturating_sub": 0, "core::num::<impl u64>::wrapping_sub": 0, "core::num::<impl u64>::checked_sub": 0})
+STEP.update({"std::option::Option::<T>::unwrap_or": 0, "std::option::Option::<T>::unwrap_or_default": 0, "std::ops::Sub::sub": 0, "core::num::<impl u64>::saturating_sub": 0, "core::num::<impl u64>::wrapping_sub": 0, "core::num::<impl u64>::checked_sub": 0})
 
 
 def comparisons_step(ctx, fid):
